@@ -94,6 +94,9 @@ def _generic(prop, tier, seed, wd, replay, rule, quick_cfgs, thorough_cfgs, mand
     if repo_tests:
         from . import repo_traces
         repo_traces.check(run, prop, wd)
+    if prop == "C03":
+        from . import base_exec
+        base_exec.check(run, wd, seed, tier)       # informational: BaseObject namespace (spec/EGBase.tla)
     if tier == "thorough":
         if cached_first:
             name, consts = cfgs[0]
